@@ -67,7 +67,10 @@ structure Dir where
   cexpect : List (List Bytes) := []
 
 structure St where
+  /-- the key of the handshake (stays the key of A's session with the raw peer) -/
   key : Bytes := List.replicate 32 0
+  /-- the key currently registered for the A <-> B session at both ends (`rekey` replaces it) -/
+  abKey : Bytes := List.replicate 32 0
   ab : Dir := {}
   ba : Dir := {}
   /-- A's reader for the raw peer: model (fed in the op's pieces) -/
@@ -154,13 +157,22 @@ def stepCore (st : St) (tok : List String) (_line : String) (impl : Option Strin
   match tok with
   | ["open", k] =>
     match bytesOfHex k with
-    | some kb => ({ key := kb }, "ok", match impl with | some i => if i == "ok" then "ok" else "viol:open:" ++ i | none => "ok")
+    | some kb => ({ key := kb, abKey := kb }, "ok", match impl with | some i => if i == "ok" then "ok" else "viol:open:" ++ i | none => "ok")
+    | none => (st, "bad-op", "ok")
+  | ["rekey", k] =>
+    -- register_peer_key on both ends while both readers are idle at a frame boundary: sender (`send` snapshots the key
+    -- when it builds the frame) and receiver (`receive_loop` snapshots it after the frame has been read) switch at the
+    -- same point of the byte stream; the model's readers simply get the new key with the next bytes fed
+    match bytesOfHex k with
+    | some kb =>
+      if kb.length != 32 then (st, "bad-op", "ok") else
+      ({ st with abKey := kb }, "ok", match impl with | some i => if i == "ok" then "ok" else "viol:rekey:" ++ i | none => "ok")
     | none => (st, "bad-op", "ok")
   | ["send", dir, len, seed] =>
     match pick dir, natArg len, natArg seed with
     | some d, some n, some s =>
       let payload := genBytes n (UInt64.ofNat s)
-      let (d', ok) := doSend st.key d payload
+      let (d', ok) := doSend st.abKey d payload
       (put dir (specNote d' payload), if ok then "sent" else "refused", sendVerdict payload impl)
     | _, _, _ => (st, "bad-op", "ok")
   | ["burst", dir, count, seed, maxLen] =>
@@ -168,7 +180,7 @@ def stepCore (st : St) (tok : List String) (_line : String) (impl : Option Strin
     | some d, some c, some s, some m =>
       let (d', k) := (List.range c).foldl (fun (acc : Dir × Nat) i =>
         let payload := genBytes (burstLen s i m) (UInt64.ofNat (s * 1000003 + i))
-        let (d1, ok) := doSend st.key acc.1 payload
+        let (d1, ok) := doSend st.abKey acc.1 payload
         (specNote d1 payload, if ok then acc.2 + 1 else acc.2)) (d, 0)
       let specK := d'.expect.length - d.expect.length
       let verdict := match impl with
@@ -185,14 +197,14 @@ def stepCore (st : St) (tok : List String) (_line : String) (impl : Option Strin
         (List.range ps.length).filterMap fun i =>
           let p := ps.getD i []
           let nonce := nonceOf (d.sends + t * cnt + i)
-          (Frames.send st.key nonce p).map fun f =>
+          (Frames.send st.abKey nonce p).map fun f =>
             let rest := f.drop 13
             { nonce := nonce, payload := p, pieces := [f.take 13, rest.take (rest.length / 2), rest.drop (rest.length / 2)] }
       let calls := (List.range nT).map fun t => callsOf t (payloads.getD t [])
       -- the threads are scheduled round-robin, one interaction with the socket or the lock at a time
       let sched := (List.range (4 * nT * cnt + 4)).flatMap fun _ => List.range nT
       let s := Frames.Senders.runAsCoded (Frames.Senders.init fun t => calls.getD t []) sched
-      let r := Frames.feed st.key d.reader s.wire
+      let r := Frames.feed st.abKey d.reader s.wire
       let sent := "sent=" ++ "/".intercalate (calls.map fun c => toString c.length)
       let want := "sent=" ++ "/".intercalate ((List.range nT).map fun _ => toString cnt)
       let verdict := match impl with
